@@ -86,3 +86,6 @@ pub(crate) fn proto(
         });
     }
 }
+
+/// Hook H3: the private stored-origin codec driven from plain edge descriptions.
+pub use crate::zalsa_local::verif_codec as codec;
